@@ -17,6 +17,9 @@ R14.c  never a hang: every iteration of the ``while`` in
 R14.d  numbering: ``set_operation_attributes`` assigns job_id / position from
        the enumeration indices and a running operation id starting at 0 that
        grows by one per operation, in job-major order.
+R14.f  the instance's derived views are not accumulated with a numpy ufunc
+       read-modify-write through a non-scalar index (``a[ids] = np.maximum(
+       a[ids], d)`` keeps one write per repeated id).
 R14.e  ``Schedule.to_dict`` emits each machine's job ids in list order: no
        reordering operator other than a stable sort on start_time[, end_time]
        (the identity on dispatcher-built lists).
